@@ -304,6 +304,8 @@ def closure_result_under_variant(cb, enum_ty, variant):
                         results.add({'1': 'yes', '0': 'no'}.get(v, 'unknown'))
                 else:
                     results.add('unknown')
+            elif call.qname in ('std::cmp::PartialEq::eq', 'std::cmp::PartialEq::ne'):
+                results.add('maybe')  # value-dependent answer (e.g. `data.task == task`), reached only under this variant
             else:
                 results.add('unknown')
     if not results:
